@@ -23,6 +23,7 @@
 */
 
 #include <cstdlib>
+#include <vector>
 
 #include "libavoid/shape.h"
 #include "libavoid/vertices.h"
@@ -93,8 +94,14 @@ static double absoluteOffsetInverse(double offset,
 void ShapeRef::transformConnectionPinPositions(
         ShapeTransformationType transform)
 {
-    for (ShapeConnectionPinSet::iterator curr = 
-            m_connection_pins.begin(); curr != m_connection_pins.end(); ++curr)
+    // The pin set is ordered by the very members that are rewritten below
+    // (offsets and visibility directions), so the pins are taken out of the
+    // set while they change and are put back afterwards.
+    std::vector<ShapeConnectionPin *> pins(m_connection_pins.begin(),
+            m_connection_pins.end());
+    m_connection_pins.clear();
+    for (std::vector<ShapeConnectionPin *>::iterator curr = pins.begin();
+            curr != pins.end(); ++curr)
     {
         ShapeConnectionPin *pin = *curr;
         double usingProportionalOffsets = pin->m_using_proportional_offsets;
@@ -219,6 +226,12 @@ void ShapeRef::transformConnectionPinPositions(
             if (visInDir[(rotationN + dirD) % 4])  visDirs |= ConnDirDown;
             if (visInDir[(rotationN + dirL) % 4])  visDirs |= ConnDirLeft;
         }
+    }
+    m_connection_pins.insert(pins.begin(), pins.end());
+    for (std::vector<ShapeConnectionPin *>::iterator curr = pins.begin();
+            curr != pins.end(); ++curr)
+    {
+        ShapeConnectionPin *pin = *curr;
         pin->updatePositionAndVisibility();
         m_router->modifyConnectionPin(pin);
     }
